@@ -1,8 +1,10 @@
 --------------------------------- MODULE Sim ---------------------------------
 (* Behaviour generator: `tlc -simulate` prints one JSON behaviour per run.  The same
    module serves both layers: with DirectOn the behaviours are reducer calls (single
-   appends and two-event write batches), with LeaderOn they are leader calls with cache
-   losses.  Event ids are drawn from a small pool so that replays are frequent. *)
+   appends, two-event write batches, and a write batch that stays open (Stage) while
+   aimed appends - another lane of the same message, the same id - commit before its
+   Commit), with LeaderOn they are leader calls with cache losses; terminal payloads are
+   drawn with a real snapshot, without one, or with an explicit JSON null.  Event ids are drawn from a small pool so that replays are frequent. *)
 EXTENDS MessageEvent, Json, TLC
 CONSTANT Depth
 VARIABLE hist
@@ -19,19 +21,44 @@ OpenDurable(m)  == {k \in LaneKeys : db[m].lanes[k].ex /\ ~Terminal(db[m].lanes[
 FinalDurable(m) == {k \in LaneKeys : db[m].lanes[k].ex /\ Terminal(db[m].lanes[k].status)}
 
 \* A random event of type t for lane k with id i.
+\* Terminal payloads: a real snapshot, no snapshot key, an explicit JSON null.
 Ev(i, k, t) ==
-  CASE t = "open"     -> Event(i, k, t, "", 0)
-    [] t = "delta"    -> Event(i, k, t, RandomElement(Toks), 0)
-    [] t = "snapshot" -> Event(i, k, t, RandomElement(Snaps), 0)
-    [] t = "finish"   -> Event(i, "main", t, RandomElement(Snaps \cup {"", "", ""}), RandomElement(Reasons))
-    [] OTHER          -> Event(i, k, t, RandomElement(Snaps \cup {"", ""}), RandomElement(Reasons))
+  CASE t = "open"     -> Event(i, k, t, "", 0, FALSE)
+    [] t = "delta"    -> Event(i, k, t, RandomElement(Toks), 0, FALSE)
+    [] t = "snapshot" -> Event(i, k, t, RandomElement(Snaps), 0, FALSE)
+    [] t = "finish"   -> LET pn == RandomElement({<<"S", 1>>, <<"T", 1>>, <<"", 1>>, <<"", 2>>, <<"", 3>>, <<"", 4>>})
+                         IN Event(i, "main", t, IF pn[1] \in Snaps THEN pn[1] ELSE "", RandomElement(Reasons), pn[2] >= 3)
+    [] OTHER          -> LET pn == RandomElement({<<"S", 1>>, <<"T", 1>>, <<"", 1>>, <<"", 2>>, <<"", 3>>})
+                         IN Event(i, k, t, IF pn[1] \in Snaps THEN pn[1] ELSE "", RandomElement(Reasons), pn[2] >= 3)
 
 \* The drawn event is bound once (an operator argument would be re-drawn at every use).
 DoAppend(m, i, k, t) == \E e \in {Ev(i, k, t)} : AppendEvent(m, e)
 DoLeader(m, i, k, t) == \E e \in {Ev(i, k, t)} : LeaderAppend(m, e)
+DoStage(m, i, k, t)  == \E e \in {Ev(i, k, t)} : StageAppend(m, e)
 DoBatch(m, i1, k1, t1, i2, k2, t2) == \E e1 \in {Ev(i1, k1, t1)}, e2 \in {Ev(i2, k2, t2)} : AppendBatch(m, e1, e2)
 
-DirectStep ==
+OtherLane(k) == IF k = "aux" THEN "main" ELSE "aux"
+
+\* While a write batch is open: appends that commit before it (aimed: another lane of the
+\* same message, the same lane, the same id), then the commit.
+StagedStep ==
+  \/ \E i \in Pick(OrNone(Fresh(staged.m) \ {staged.e.id})), t \in Pick({"delta", "delta", "close", "snapshot"}) :
+        i # "none" /\ staged.e.type # "finish" /\ DoAppend(staged.m, i, OtherLane(staged.e.key), t)
+  \/ \E i \in Pick(OrNone(Fresh(staged.m) \ {staged.e.id})), k \in Pick(LaneKeys), t \in Pick(Types) :
+        i # "none" /\ RandomElement(1..2) = 1 /\ DoAppend(staged.m, i, k, t)
+  \/ \E k \in Pick(LaneKeys), t \in Pick(Types) :
+        RandomElement(1..4) = 1 /\ DoAppend(staged.m, staged.e.id, k, t)
+  \/ \E m \in Pick(Msgs), i \in Pick(Ids), k \in Pick(LaneKeys), t \in Pick(Types) :
+        RandomElement(1..3) = 1 /\ DoAppend(m, i, k, t)
+  \/ CommitStaged
+  \/ CommitStaged
+
+UnstagedStep ==
+  \* a write batch that stays open over the next steps
+  \/ \E m \in Pick(Msgs) : \E i \in Pick(OrNone(Fresh(m))), k \in Pick(LaneKeys), t \in Pick({"delta", "delta", "close", "finish", "snapshot", "open"}) :
+        i # "none" /\ DoStage(m, i, k, t)
+  \/ \E m \in Pick(Msgs), i \in Pick(Ids), k \in Pick(LaneKeys), t \in Pick(Types) :
+        RandomElement(1..2) = 1 /\ DoStage(m, i, k, t)
   \/ \E m \in Pick(Msgs), i \in Pick(Ids), k \in Pick(LaneKeys), t \in Pick(Types) : DoAppend(m, i, k, t)
   \* a new id: deltas keep the lane growing
   \/ \E m \in Pick(Msgs) : \E i \in Pick(OrNone(Fresh(m))), k \in Pick(LaneKeys) :
@@ -56,6 +83,8 @@ DirectStep ==
         DoBatch(m, i, k, t1, j, k, t2)
   \/ \E m \in Pick(Msgs), i \in Pick(Ids), j \in Pick(Ids), k1 \in Pick(LaneKeys), k2 \in Pick(LaneKeys),
         t1 \in Pick(Types), t2 \in Pick(Types) : DoBatch(m, i, k1, t1, j, k2, t2)
+
+DirectStep == IF staged.ex THEN StagedStep ELSE UnstagedStep
 
 LeaderStep ==
   \/ \E m \in Pick(Msgs), i \in Pick(Ids), k \in Pick(LaneKeys), t \in Pick(Types) : DoLeader(m, i, k, t)
